@@ -38,6 +38,7 @@ fn main() {
         "C12" => c12::run(&ctx),
         "C18" => c18::run(&ctx),
         "C14" => wireurl::run_child(&ctx),
+        "C16" => c18::run_status_sweep_child(&ctx),
         other => {
             eprintln!("MACHINERY-ERROR unknown check {}", other);
             std::process::exit(2)
